@@ -6,8 +6,8 @@ usage: seedcheck.py <worktree> <patch.diff> <demo.diff> <out.json>"""
 import json, re, subprocess, sys, os
 wt, patch, demo, out = sys.argv[1:5]
 base = json.load(open('/root/.vp/BASELINE.json'))
-stable = set(n.split('::', 1)[1] for n in base['stable_pass'])
-known_fail = {'integration_tests::https_works', 'integration_tests::wss_works'}
+stable = set(n.split('::')[-1] for n in base['stable_pass'])
+known_fail = {'https_works', 'wss_works'}
 def sh(cmd):
     return subprocess.run(cmd, shell=True, cwd=wt, capture_output=True, text=True)
 def clean():
@@ -15,8 +15,8 @@ def clean():
 def suite():
     p = sh('cargo test --workspace --no-fail-fast --offline 2>&1')
     txt = p.stdout
-    failed = set(re.findall(r'^test (\S+) \.\.\. FAILED', txt, re.M))
-    passed = set(re.findall(r'^test (\S+) \.\.\. ok', txt, re.M))
+    failed = set(x.split('::')[-1] for x in re.findall(r'^test (\S+) \.\.\. FAILED', txt, re.M))
+    passed = set(x.split('::')[-1] for x in re.findall(r'^test (\S+) \.\.\. ok', txt, re.M))
     comp_err = bool(re.search(r'^error(\[E\d+\])?:', txt, re.M)) and 'could not compile' in txt
     return failed, passed, comp_err, txt[-3000:]
 res = {'worktree': wt, 'patch': patch, 'demo': demo}
